@@ -122,10 +122,14 @@ CHECKS = {
         "range and every error must lie in the victim. PARTIAL."),
   note=TB + SYN, ref="5.C03"),
  "C10": dict(
-  technique="Lean 4 theorems for the parser part (C02) + exhaustive query sweep (exploration) on damaged workspaces",
+  technique="Lean 4 theorems for the parser part (C02) and for the collector that freezes (possibly cyclic) types (M-collect, tied to Collector::collect by a script hook) + exhaustive query sweep (exploration) on damaged workspaces",
   text=("Proved: the parser, first stage of every query, never fails a precondition assertion, never bumps past the end and terminates, on every "
         "token list (corollaries of C02's checker soundness, Props/C10.lean); parse_total: the model of parse_module returns a tree for every text "
-        "unless the parser's own look-ahead guard fires (mark discipline + tree builder, Props/C02Marks.lean). Everything after parsing (lowering, scopes, inference, salsa) is "
+        "unless the parser's own look-ahead guard fires (mark discipline + tree builder, Props/C02Marks.lean). Props/C10Collect.lean: collect_total / collectAll_total - "
+        "Collector::collect (the placeholder written into the cache before descending is what keeps cyclic types, which occurs-check-free unification produces on half-typed code, finite) returns a type on EVERY "
+        "well-formed table whose values mention only variables of the table, cyclic or not, from every collector state, with fuel table size + 1 (measure: classes not yet started); collect_caches / collect_again; "
+        "order_matters (kernel-evaluated witness that the answer depends on the order of the requests - the mechanism of the recorded C11 finding). Tied to the code by the hook ide::verif_collect_script: 3000 (thorough 60000) random "
+        "tables with cycles, merged classes and repeated requests, answers compared literally. Everything else after parsing (lowering, scopes, inference, salsa) is "
         "EXPLORED, not proved: every query (hover, go-to-definition, references, highlight, completion plain/./@, signature help, prepare-rename, "
         "rename, diagnostics, semantic highlighting, syntax tree) at every token boundary of every file of generated, damaged, truncated, "
         "duplicated, import-rewired (cycles, self-imports), degenerate and syntax-soup workspaces, each under catch_unwind, aborts isolated per "
